@@ -379,13 +379,16 @@ def run(ctx):
     ctx.coq_props()
     thorough = ctx.tier != "quick"
     rng = ctx.rng
-    cnt = ({"fold": 260, "noise": 260, "insert": 260, "zero": 40, "extrap": 150, "expo": 60} if not thorough else
+    cnt = ({"fold": 400, "noise": 400, "insert": 400, "zero": 50, "extrap": 200, "expo": 80} if not thorough else
            {"fold": 2500, "noise": 2500, "insert": 2500, "zero": 300, "extrap": 1200, "expo": 400})
     gens = {"fold": lambda: gen_fold(rng, thorough), "noise": lambda: gen_noise(rng), "insert": lambda: gen_insert(rng),
             "zero": lambda: gen_zero(rng), "extrap": lambda: gen_extrap(rng), "expo": lambda: gen_expo(rng)}
     cases = [dict(c) for c in CORPUS]
     for kind, n in cnt.items():
         cases.extend(gens[kind]() for _ in range(n))
+    rp = getattr(ctx, "replay", None)
+    if rp and isinstance(rp.get("replay"), dict) and "case" in rp["replay"]:
+        cases = [rp["replay"]["case"]]          # ./check C25 --replay file : re-run only the recorded case
     obs = ctx.run_impl("c25_impl.py", {"cases": cases})
 
     hist = {"fold": 0, "noise": 0, "insert": 0, "zero": 0, "extrap": 0, "expo": 0, "errors": 0,
